@@ -750,7 +750,7 @@ class DataType(object):
                     r'('
                     r'-?(([1-8][0-9]|[0-9])(\.\d{6})),'
                     r'(-?(([1-9][0-9]|1[0-7]\d|[0-9])\.\d{6})|(180\.0{6}))'
-                    r')|(-?90.000000,0.000000)'
+                    r')|(-?90\.000000,0\.000000)'
                 ),
                 name='pattern'), type='string'
         )
